@@ -579,3 +579,100 @@ def run_steady(args):
         if problems:
             break
     return {'steady_runs': runs, 'gates': steps}, problems
+
+
+class OKey(str):
+    """an id whose ORDER comparison is a gate (ids with a Python-level `__lt__`, e.g. dataclasses with order=True): another thread may
+    run while a sort that involves the ids is in progress"""
+    ctrl = None
+
+    def __lt__(self, other):
+        c = OKey.ctrl
+        if c is not None:
+            c.gate('lt')
+        return str.__lt__(self, other)
+
+    __hash__ = str.__hash__
+
+
+def _group_once(k, order, warm):
+    """GroupBy over ids with a gated order comparison: two threads ask for fields of the SAME group; thread `order[0]` passes `k`
+    gates (user functions and comparisons of ids), then the other thread runs to completion, then the first finishes"""
+    paths.use_repo()
+    world = SymWorld()
+    ids = ['i3', 'i1', 'i2', 'i4']
+    src = {'k': 'source', 'cls': 'GG', 'ids': ids, 'params': {}, 'cargs': {}, 'defaults': {},
+           'fields': {'kk': {'args': ['i'], 'f': 'GG.kk', 'table': [[[i], 'g'] for i in ids]}, 'x': {'args': ['i'], 'f': 'GG.x'}, 'y': {'args': ['i'], 'f': 'GG.y'}}}
+    b = Builder(world)
+    b.ids_wrap = OKey
+    layer = b.layer({'k': 'chain', 'flavour': 'chain', 'layers': [src, {'k': 'groupby', 'by': 'kk'}]})
+    fx, fy = layer._compile('x'), layer._compile('y')
+    want = {}
+    twin_b = Builder(world)
+    twin_b.ids_wrap = OKey
+    twin = twin_b.layer({'k': 'chain', 'flavour': 'chain', 'layers': [src, {'k': 'groupby', 'by': 'kk'}]})
+    want[0] = canon(val_to_json(twin._compile('x')('g'), world))
+    want[1] = canon(val_to_json(twin._compile('y')('g'), world))
+    if warm:
+        fx('g')         # the mapping exists already: the threads meet in the grouped fields only
+    a, c = order
+    ctrl = Controller([a] * (k + 1) + [c] * 100000, 2)
+    LockProxy.registry = {}
+    OKey.ctrl = ctrl
+    real_log = world.log
+
+    class GateLog(list):
+        def append(self_inner, item):
+            ctrl.gate('call:' + item[0])
+            list.append(self_inner, item)
+    world.log = GateLog(real_log)
+    results = {}
+
+    def worker(tid):
+        threading.current_thread().cv_tid = tid
+        ctrl.gate('start')
+        try:
+            results[tid] = ('ok', canon(val_to_json((fx if tid == 0 else fy)('g'), world)))
+        except Exception as e:
+            results[tid] = ('err', exc_name(e) + ': ' + str(e)[:80])
+        ctrl.done()
+    threads = [threading.Thread(target=worker, args=(i,), daemon=True) for i in range(2)]
+    try:
+        for th in threads:
+            th.start()
+        ok = ctrl.drive(threads, timeout=30)
+        for th in threads:
+            th.join(timeout=2)
+    finally:
+        OKey.ctrl = None
+    if not ok:
+        return ['the schedule did not complete (deadlock or timeout)'], len(ctrl.trace)
+    problems = []
+    for tid in (0, 1):
+        r = results.get(tid)
+        if r is None or r[0] == 'err':
+            problems.append(f'two threads in one group of a GroupBy: thread {tid} got {r[1] if r else "nothing"}; a sequential execution returns the value')
+        elif r[1] != want[tid]:
+            problems.append(f'two threads in one group of a GroupBy (ids with a Python-level order, cut-in after {k} gates): thread {tid} got {r[1][:120]}, '
+                            f'a sequential execution returns {want[tid][:120]}')
+    return problems, len(ctrl.trace)
+
+
+def run_group_sweep(args):
+    seed, both = args
+    problems, runs, gates = [], 0, 0
+    for warm in (True, False):
+        total = None
+        k = 0
+        while total is None or k <= total:
+            for order in ([(0, 1), (1, 0)] if both else [(0, 1)]):
+                pr, st = _group_once(k, order, warm)
+                runs += 1
+                gates += st
+                total = st if total is None else max(total, st)
+                for p in pr:
+                    problems.append({'k': k, 'order': order, 'warm': warm, 'msg': p})
+            if problems:
+                return {'group_runs': runs, 'gates': gates}, problems
+            k += 1
+    return {'group_runs': runs, 'gates': gates}, problems
